@@ -60,7 +60,7 @@ PROPS = {
     },
     "C11": {
         "stages": [{"bin": "hist"}],
-        "rule": "history monitor: a model histogram (map index tuple -> count; the cell of an observation found by a LINEAR scan e_i <= v < e_{i+1} over each axis's sorted distinct edges, independent of the crate's binary search) is updated per accepted insert and compared with the WHOLE counts() array after EVERY add_observation: Ok iff the model finds a cell, counts equal the model everywhere (a rejected insert changed nothing), shape == per-axis bin counts, sum of counts == accepted inserts. Matrix form histogram(): equals the model of its rows for C / F / stepped / reversed / random zoo layouts of the observation matrix and for permuted rows. Exhaustive part: 1 and 2 axes, every subset of edges {0,2,4,6} per axis (zero-bin axes included), every observation in {below, each edge, each midpoint, above}^d fed as one history (each insert = one distinct case). Random part: 1..3 axes, 0..6 unsorted duplicated edges per axis, histories of 1..200 inserts mixing accepted and rejected points, i32 and N64. distinct = hash of (type, edges, history).",
+        "rule": "history monitor: a model histogram (map index tuple -> count; the cell of an observation found by a LINEAR scan e_i <= v < e_{i+1} over each axis's sorted distinct edges, independent of the crate's binary search) is updated per accepted insert and compared with the WHOLE counts() array after EVERY add_observation: Ok iff the model finds a cell, counts equal the model everywhere (a rejected insert changed nothing), shape == per-axis bin counts, sum of counts == accepted inserts. Matrix form histogram(): equals the model of its rows for C / F / stepped / reversed / random zoo layouts of the observation matrix and for permuted rows. Exhaustive part: 1 and 2 axes, every subset of edges {0,2,4,6} per axis (zero-bin axes included), every observation in {below, each edge, each midpoint, above}^d fed as one history (each insert = one distinct case). Random part: 1..3 axes, 0..6 unsorted duplicated edges per axis, histories of 1..200 inserts mixing accepted and rejected points, i32 and N64; axes with 60..210 edges driven by local moves, far jumps and rejected points (per-insert comparison), and observation matrices of 4096..9000 rows in C / F / random layouts (matrix form). distinct = hash of (type, edges, history).",
         "exhaustive": True,
         "exhaustive_bound": {"quick": "d <= 2, <= 4 edges per axis, all single observations over the candidate set", "thorough": "same exhaustive part, 1M random histories"},
         "assumptions": COMMON_ASSUME,
@@ -73,7 +73,7 @@ PROPS = {
     },
     "C13": {
         "stages": [{"bin": "hist"}],
-        "rule": "exhaustive: ALL sequences of length 0..5 (6 thorough) over {0..5} as edge collections (i32 with doubled values so half-way probes are integers, N64 genuinely, Tracked keys in thorough), built via From<Vec> and From<Array1>, x probes {-1, -1/2, 0, 1/2, ..., 6}: Edges::{len,is_empty,iter,index,as_array_view,indices_of}, Bins::{len,is_empty,index,index_of,range_of} against a BTreeSet / linear-scan model and against each other (range_of(v) == index(index_of(v))). Each edge sequence of length >= 2 is one distinct non-trivial case (counted exactly). Random part: grids of 1..3 axes: ndim/shape/projections, Grid::index for ALL index tuples, Grid::index_of for points inside every cell and random points.",
+        "rule": "exhaustive: ALL sequences of length 0..5 (6 thorough) over {0..5} as edge collections (i32 with doubled values so half-way probes are integers, N64 genuinely, Tracked keys in thorough), built via From<Vec> and From<Array1>, x probes {-1, -1/2, 0, 1/2, ..., 6}: Edges::{len,is_empty,iter,index,as_array_view,indices_of}, Bins::{len,is_empty,index,index_of,range_of} against a BTreeSet / linear-scan model and against each other (range_of(v) == index(index_of(v))). Each edge sequence of length >= 2 is one distinct non-trivial case (counted exactly). Every probe list is asked ascending, descending and in two scrambled orders on the SAME object (a lookup must not depend on earlier lookups). Random part: grids of 1..3 axes: ndim/shape/projections, Grid::index for ALL index tuples, Grid::index_of for points inside every cell and random points, points handed over as owned, reversed and stepped views; edge collections of 5..200 edges with EVERY ordered pair of probes (below / on edges / strictly inside bins / above) on one object.",
         "exhaustive": True,
         "exhaustive_bound": {"quick": "all edge sequences of length <= 5 over 6 values x 15 probes", "thorough": "length <= 6"},
         "assumptions": COMMON_ASSUME + ["only comparisons are used by Edges/Bins (stated in the property), so a 6-value alphabet covers all order patterns up to the length bound"],
@@ -94,7 +94,7 @@ PROPS = {
                    {"kind": "sanitizer", "tool": "memcheck", "tiers": ["thorough"]}],
         "rule": "exhaustive part: ALL missing/non-missing masks of length 0..10 x 18 (stride, offset) pairs with strides {1,2,3,-1,-2,-3} x 14 element types (f32, f64, Option of u8..u128, i8..i128, N32, N64); each (type, mask, layout) is one distinct case, counted exactly (length >= 2 = non-trivial). Monitors per call: returned length == number of non-missing inputs; every element ADDRESS of the returned view is an element address of the argument view (checked before anything is read through it); no missing value in the view's memory (read as the underlying type from the parent buffer); multiset == non-missing inputs; iteration through the NotNan-typed view yields the same values; lane multiset incl. missing values and guard cells unchanged; determinism (two identical inputs, same view); idempotence (second application leaves the sequence unchanged); is_nan / try_as_not_nan agree with the representation. Random part: masks of length 11..70, strides up to +-7; lanes handed out by map_axis_skipnan_mut along every axis of 1..3-D zoo arrays (address set of the handed-out view must lie inside exactly one lane).",
         "exhaustive": True,
-        "exhaustive_bound": {"quick": "all masks of length <= 10 x 18 stride/offset pairs x 14 element types", "thorough": "same, plus 200k longer random masks and 600k n-D lane cases"},
+        "exhaustive_bound": {"quick": "all masks of length <= 10 x 18 stride/offset pairs x 14 element types", "thorough": "same, plus 200k longer random masks, 600k n-D lane cases and two f32 lanes of 2^31+5 and 2^32+3 elements (release profile, when memory allows)"},
         "assumptions": COMMON_ASSUME + ["behaviour depends only on the missing/non-missing pattern (stated in the property)"],
     },
     "C14": {
@@ -132,14 +132,14 @@ PROPS = {
     },
     "C15": {
         "stages": [{"bin": "sel"}],
-        "rule": "exhaustive part: every weak-order pattern of length 1..L (L=7 quick, 8 thorough) x every pivot position x strides {1,2,3,-1,-2} (strided up to length 6) inside a guarded parent buffer; each (pattern, position, stride) is one distinct case, counted exactly. Random part: lengths up to 500; distinct = hash of (keys, position, layout). Oracle: rank = #{x < pivot}, position k holds the pivot value, strict left side, >= right side, multiset by id, guards.",
+        "rule": "exhaustive part: every weak-order pattern of length 1..L (L=7 quick, 8 thorough) x every pivot position x strides {1,2,3,-1,-2} (strided up to length 6) inside a guarded parent buffer; each (pattern, position, stride) is one distinct case, counted exactly. Random part: lengths up to 500; other element types: i32, u8, N64, the NotNone<i32> wrapper obtained from Option<i32>::remove_nan_mut, and zero-sized elements; distinct = hash of (keys, position, layout). Oracle: rank = #{x < pivot}, position k holds the pivot value, strict left side, >= right side, multiset by id, guards.",
         "exhaustive": True,
         "exhaustive_bound": {"quick": "patterns n<=7", "thorough": "patterns n<=8"},
         "assumptions": COMMON_ASSUME,
     },
     "C16": {
         "stages": [{"bin": "sel"}],
-        "rule": "out-of-range: every weak-order pattern of length 0..L (L=6 quick, 7 thorough) x positions {n, n+1, 2n+3, MAX/2+1, MAX-1, MAX} x EVERY pivot sequence for single selection; bulk requests with an out-of-range member alone / repeated / first / last / mixed; partition on plain, stepped and reversed views; Edges/Bins/Grid with 0..6 edges per axis (1..3 axes), every single out-of-range coordinate and wrong arity. In-range: the C02/C15 exhaustive workloads replayed with only the unwind bit observed, plus every in-range Edges/Bins/Grid position. Both build profiles (release; checked = debug assertions + overflow checks). Each (input, position, pivot sequence) is a distinct case, counted exactly.",
+        "rule": "out-of-range: every weak-order pattern of length 0..L (L=6 quick, 7 thorough) x positions {n, n+1, 2n+3, MAX/2+1, MAX-1, MAX} x EVERY pivot sequence for single selection; bulk requests with an out-of-range member alone / repeated / first / last / mixed; partition on plain, stepped and reversed views; Edges/Bins/Grid with 0..6 edges per axis (1..3 axes), every single out-of-range coordinate and wrong arity. Call histories on one thread: a request (or index) accepted for a longer array must be rejected for a shorter one immediately afterwards, twice in a row; an empty request on an empty array must not panic. In-range: the C02/C15 exhaustive workloads replayed with only the unwind bit observed, plus every in-range Edges/Bins/Grid position. Both build profiles (release; checked = debug assertions + overflow checks). Each (input, position, pivot sequence) is a distinct case, counted exactly.",
         "exhaustive": True,
         "exhaustive_bound": {"quick": "patterns n<=6", "thorough": "patterns n<=7"},
         "assumptions": COMMON_ASSUME + ["'panics' is observed as an unwind caught by catch_unwind (both profiles are built with panic=unwind)"],
